@@ -24,6 +24,7 @@ EXPLANATION = (
     "name-taking operations; names enter the mailboxes table only from sanitised names or the directory walk (second-order "
     "flow); (R9.2) LIST/LSUB code reaches no file-system sink with pattern/reference data. This is the whole static content "
     "of the property; symlinks already inside the root are not name-driven and not decided."
+    " A '..' guard in prefix form only counts when an unconditional normpath dominates it, a strip of leading '/' only when it is unconditional (modulo the `reference` mode parameter); (R9.3) the mail directory itself ('.') is refused."
 )
 RULE_TEXT = (
     "instances: each (function, name parameter) on a source-to-sink flow; each assignment of a command name attribute; "
